@@ -439,8 +439,7 @@ Section Exec.
     end.
 
   (** *** UPDATE *)
-  (** RowSelector::select_rows / DeleteExecutor::collect_rows_with_scan: [None] = the WHERE clause failed to evaluate
-      for some row (both executors propagate the error; nothing has been touched at that point) *)
+  (** RowSelector::select_rows (UPDATE): [None] = the WHERE clause failed to evaluate for some row *)
   Fixpoint select_rows (ctx : tctx) (w : option cond) (rows : list (nat * row)) : option (list (nat * row)) :=
     match rows with
     | [] => Some []
@@ -582,6 +581,18 @@ Section Exec.
     end.
 
   (** *** DELETE *)
+  (** DeleteExecutor::collect_rows_with_scan: a row is selected when its predicate evaluates and is true by
+      where_value_is_true; a row whose predicate cannot be evaluated (or is not a boolean / number) is kept --
+      DELETE does not fail on it, where UPDATE does *)
+  Definition selected (ctx : tctx) (w : option cond) (ir : nat * row) : bool :=
+    match (match w with None => Some true | Some c => where_true (mkEnv (Some (snd ir)) ctx) c end) with
+    | Some true => true
+    | _ => false
+    end.
+
+  Definition collect_rows (ctx : tctx) (w : option cond) (rows : list (nat * row)) : list (nat * row) :=
+    filter (selected ctx w) rows.
+
   Fixpoint cascade_deletes (t pkc : nat) (rows : list (nat * row)) (k : nat) (d : db) (m : nat) : db * option nat * nat :=
     match rows with
     | [] => (d, None, m)
@@ -599,10 +610,8 @@ Section Exec.
     | Some tb =>
         if is_none w && can_use_truncate d t then (clear_table d t, [], Ok (length (tb_rows tb)))
         else
-          match select_rows ctx w (indexed 0 (tb_rows tb)) with
-          | None => (d, [], Err (AtValidate 0) CzCheck 0)
-          | Some cands =>
           let ev := EvDelete in
+          let cands := collect_rows ctx w (indexed 0 (tb_rows tb)) in
           let '(d1, l1, r1) := if is_none ctx then fireS (d_trigs d) t Before ev d else (d, [], None) in
           match r1 with
           | Some c => (d1, l1, Err AtBeforeStmt c 0)
@@ -639,7 +648,6 @@ Section Exec.
                       end
                   end
               end
-          end
           end
     end.
 
